@@ -257,7 +257,7 @@ func runC14(c *Ctx) {
 		copies := u.Match(an.Call("common.CopyFileForHardLink", "common.CopyFile"))
 		okAll := len(copies) >= 2
 		why := ""
-		ast.Inspect(u.Body, func(n ast.Node) bool {
+		u.InspectAll(func(n ast.Node) bool {
 			rs, ok := n.(*ast.RangeStmt)
 			if !ok {
 				return true
